@@ -29,6 +29,10 @@ func dispatch(kind string, args []*Sexp) (out *Sexp) {
 	case "skelvm", "skelsem", "skelsrc":
 		return runC03(kind, args)
 	}
+	switch kind {
+	case "v1prog":
+		return runC11(kind, args)
+	}
 	return L(A("unknown-kind"), A(kind))
 }
 
